@@ -461,6 +461,7 @@ req_sketch<T, C, A> req_sketch<T, C, A>::deserialize(std::istream& is, const Ser
   const bool hra = flags_byte & (1 << flags::IS_HIGH_RANK);
   if (is_empty) return req_sketch(k, hra, comparator, allocator);
   if (num_levels == 0) throw std::invalid_argument("Possible corruption: non-empty sketch with 0 levels");
+  if (k < req_constants::MIN_K || (k & 1) != 0) throw std::invalid_argument("Possible corruption: k must be even and at least " + std::to_string(req_constants::MIN_K) + ": " + std::to_string(k));
 
   optional<T> tmp; // space to deserialize min and max
   optional<T> min_item;
@@ -538,6 +539,7 @@ req_sketch<T, C, A> req_sketch<T, C, A>::deserialize(const void* bytes, size_t s
   const bool hra = flags_byte & (1 << flags::IS_HIGH_RANK);
   if (is_empty) return req_sketch(k, hra, comparator, allocator);
   if (num_levels == 0) throw std::invalid_argument("Possible corruption: non-empty sketch with 0 levels");
+  if (k < req_constants::MIN_K || (k & 1) != 0) throw std::invalid_argument("Possible corruption: k must be even and at least " + std::to_string(req_constants::MIN_K) + ": " + std::to_string(k));
 
   optional<T> tmp; // space to deserialize min and max
   optional<T> min_item;
